@@ -246,6 +246,25 @@ type Big50x struct {
 	F40, F41, F42, F43, F44, F45, F46, F47, F48      int8
 	J                                                JP
 }
+
+// a struct compiled out of line at the default inline depth, with omitempty fields of every emptiness test
+type Leaf struct {
+	A int            `json:"a,omitempty"`
+	S string         `json:"s,omitempty"`
+	L []int          `json:"l,omitempty"`
+	M map[string]int `json:"m,omitempty"`
+	P *int           `json:"p,omitempty"`
+	I interface{}    `json:"i,omitempty"`
+	F float64        `json:"f,omitempty"`
+	B bool           `json:"b,omitempty"`
+}
+type N3 struct {
+	X struct {
+		Y struct {
+			Leaf Leaf `json:"leaf"`
+		}
+	}
+}
 type D4 struct {
 	A struct {
 		B struct{ C struct{ D struct{ E int } } }
@@ -323,6 +342,8 @@ var Catalogue = []reflect.Type{
 	46: reflect.TypeOf(NSlice(nil)),
 	47: reflect.TypeOf(NMap(nil)),
 	48: reflect.TypeOf(Big50x{}),
+	49: reflect.TypeOf(Leaf{}),
+	50: reflect.TypeOf(N3{}),
 }
 
 var catID = map[reflect.Type]int{}
